@@ -218,7 +218,20 @@ def explore(seq, full):
                 bystander = SP(seq)
                 o = build(seq, hist, probes=(ntrans % 5 == 0 and len(seq) <= 4))
                 del _ARGMOD[:]
-                apply(o, op)
+                if ntrans % 7 == 3:
+                    # every seventh transition is made while warnings are errors and numpy errors raise (same outcome required)
+                    import warnings as _w
+                    import numpy as _np
+                    _old = _np.geterr()
+                    with _w.catch_warnings():
+                        _w.simplefilter("error")
+                        _np.seterr(all="raise")
+                        try:
+                            apply(o, op)
+                        finally:
+                            _np.seterr(**_old)
+                else:
+                    apply(o, op)
                 if _ARGMOD:
                     out.append({"key": "argument-list-modified", "what": "%s: set_phosphosites(%r) edited the caller's list to %r (the same list handed to "
                                 "another object afterwards would request different positions)" % (seq, _ARGMOD[0][0], _ARGMOD[0][1]), "case": case})
@@ -304,9 +317,15 @@ def check_copies_and_types(seq):
     return out, calls
 
 
+def opt_shards(tier):
+    return [(shard, [("SYK", True), ("KSEKTGKEYEKE", False)])]
+
+
 def replay(case):
     if case.get("kind") == "two-wrappers":
         return two_wrappers(case["seq"])[0]
+    if case.get("kind") == "clones":
+        return [x for x in clones(case["seq"])[0] if x["case"].get("route") == case.get("route")]
     if case.get("kind") == "copies":
         return check_copies_and_types(case["seq"])[0]
     seq = case["seq"]
@@ -331,6 +350,47 @@ def replay(case):
                     "case": case})
     state_invariants(seq, sites, o, case, out)
     return out
+
+
+def clones(seq):
+    """Duplicates made outside the library API (pickle round trips with every protocol, copy.deepcopy) of an object with sites set:
+    the duplicate answers every phospho-query like the original and is independent of it afterwards."""
+    import copy
+    import pickle
+    out = []
+    calls = 0
+    sty = [i + 1 for i, a in enumerate(seq) if a in "STY"]
+    if not sty:
+        return out, calls
+    case = {"kind": "clones", "seq": seq}
+    order = sty[1::2] + sty[0::2]
+    routes = [("pickle-%d" % pr, (lambda x, pr=pr: pickle.loads(pickle.dumps(x, protocol=pr)))) for pr in range(0, pickle.HIGHEST_PROTOCOL + 1)]
+    routes += [("deepcopy", copy.deepcopy), ("deepcopy(backend)", None)]
+    ps = "".join("E" if (i + 1) in order else a for i, a in enumerate(seq))
+    want = (order, ps, fresh_six(ps)[0], 2 ** len(order))
+    for name, f in routes:
+        try:
+            A = SP(seq)
+            A.set_phosphosites(list(order))
+            if f is None:
+                from localcider.sequenceParameters import SequenceParameters as _SP
+                B = _SP(SeqObj=copy.deepcopy(A.SeqObj))
+            else:
+                B = f(A)
+            calls += 2
+            got = (B.get_phosphosites(), B.get_phosphosequence(), B.get_kappa_after_phosphorylation(), len(B.get_full_phosphostatus_kappa_distribution()))
+            if got != want:
+                out.append({"key": "clone-differs", "what": "%s: a %s duplicate of an object with sites %r reports (sites, phosphosequence, kappa after, "
+                            "#states) = %r, the original %r" % (seq, name, order, got, want), "case": dict(case, route=name)})
+                continue
+            B.clear_phosphosites()
+            B.set_phosphosites(sty[0])
+            if A.get_phosphosites() != order or B.get_phosphosites() != [sty[0]]:
+                out.append({"key": "clone-not-independent", "what": "%s: after clear/set on the %s duplicate the original lists %r and the duplicate %r"
+                            % (seq, name, A.get_phosphosites(), B.get_phosphosites()), "case": dict(case, route=name)})
+        except Exception as e:  # noqa
+            out.append({"key": "query-raises", "what": "%s: %s duplicate scenario raised %r" % (seq, name, e), "case": dict(case, route=name)})
+    return out, calls
 
 
 def two_wrappers(seq):
@@ -398,9 +458,10 @@ def shard(items):
         v, nst, ntr, calls = many_sites(seq) if full == "many" else explore(seq, full)
         if full == "many":
             v2, c2 = two_wrappers(seq)
-            v = v + v2
-            calls += c2
-            ntr += c2
+            v3, c3 = clones(seq) if len(seq) <= 14 and sum(seq.count(c) for c in "STY") <= 7 else ([], 0)
+            v = v + v2 + v3
+            calls += c2 + c3
+            ntr += c2 + c3
         if len(seq) >= 3 and full != "many":
             v2, c2 = check_copies_and_types(seq)
             v = v + v2
@@ -436,6 +497,7 @@ def run(tier, seed, t0):
     items.sort(key=lambda it: -(sum(it[0].count(c) for c in "STY") * 10 + len(it[0])))
     nsh = 16 * 8
     acc = core.pmap(shard, [items[i::nsh] for i in range(nsh)])
+    acc.merge(core.run_optimized(PROP, tier))      # the rejection battery once more under `python -O`
     return core.finish(
         PROP, tier, seed, acc, t0,
         rule="for every word (%s) and two 12-mers: BFS over histories of clear_phosphosites() / set_phosphosites(x) with x in "
@@ -447,7 +509,7 @@ def run(tier, seed, t0):
              "the S/T/Y sites). In every state: get_phosphosites == model, sequence unchanged, get_phosphosequence = E at exactly "
              "those positions, get_kappa_after_phosphorylation = kappa of a fresh object on that sequence, distribution has 2^k "
              "entries in binary counting order whose six numbers equal those of the substituted sequence, "
-             "get_all_phosphorylatable_sites constant (also for sequences with 6, 7 and 11 sites all set: 64 / 128 / 2048 distribution entries); a list argument is not edited by the call; two wrappers around one backend object see each other's set/clear calls; in every state the lists the queries returned are overwritten by the caller and one more set call must still follow the model; for every sequence of >=3 residues a shuffled copy with all positions frozen must be an independent object (sites neither inherited nor shared), and positions given as numpy integers of seven widths in lists/tuples/arrays must behave like ints; non-trivial = states with >=1 site" % (
+             "get_all_phosphorylatable_sites constant (also for sequences with 6, 7 and 11 sites all set: 64 / 128 / 2048 distribution entries); a list argument is not edited by the call; two wrappers around one backend object see each other's set/clear calls; pickle (every protocol) and deepcopy duplicates keep the sites and are independent; every seventh transition is made with warnings as errors and numpy errors raising; in every state the lists the queries returned are overwritten by the caller and one more set call must still follow the model; for every sequence of >=3 residues a shuffled copy with all positions frozen must be an independent object (sites neither inherited nor shared), and positions given as numpy integers of seven widths in lists/tuples/arrays must behave like ints; non-trivial = states with >=1 site" % (
                  "over {S,Y,K,G}, length 1..3" if tier == "quick" else "over {S,T,Y,K,E,G}, length 1..4; over {S,Y,K}, length 5"),
         bounds={"words": len(items), "depth": "fixpoint"},
         assumptions=["other object state (delta-max cache etc.) is C15's job; non-integer positions are not in the property"])
